@@ -718,11 +718,17 @@ def rule_r5(chk, p, t):
                 fields = ["year", "month", "day", "hour", "minute"]
                 for i, nm in enumerate(fields):
                     txt = unparse(a[i])
+                    itx = unparse(inline_locals(fn, a[i]))
+                    if itx.endswith("calendar_date[%d]" % i):
+                        continue
+                    if itx != txt and "calendar_date[" in itx:
+                        bad.append(f"dayOfYear argument {i + 1} is `{itx}` (expected field {i} = {nm})")
+                        continue
                     if not (txt.endswith(nm) or txt.endswith(nm + "s")):
                         bad.append(f"dayOfYear argument {i + 1} is `{txt}` (expected {nm})")
                 sec = inline_locals(fn, a[5])
                 stxt = unparse(sec)
-                if not (isinstance(sec, ast.BinOp) and isinstance(sec.op, ast.Add) and ("dut1" in stxt or "delta_ut1" in stxt) and "second" in stxt):
+                if not (isinstance(sec, ast.BinOp) and isinstance(sec.op, ast.Add) and ("dut1" in stxt or "delta_ut1" in stxt) and ("second" in stxt or "calendar_date[5]" in stxt)):
                     bad.append(f"seconds argument is `{stxt}`, expected seconds + dUT1")
             ga = gat[0].args
             if len(ga) == 3:
